@@ -634,6 +634,12 @@ pub(crate) fn decode_response(
     let mut headers = vec![httparse::EMPTY_HEADER; headers_num_cap];
     let mut response = httparse::Response::new(&mut headers);
     match response.parse(&buffer) {
+        // the limit is on the head itself: whether it came in one piece or in several must not
+        // change the outcome
+        Ok(httparse::Status::Complete(idx)) if idx > raw_buffer_cap => Err(io::Error::new(
+            ErrorKind::Other,
+            "Too long HTTP response headers",
+        )),
         Ok(httparse::Status::Complete(idx)) => {
             let mut response_builder = http::response::Response::builder()
                 .version(httparse_to_http_version(response.version.ok_or_else(
